@@ -19,7 +19,7 @@ pub fn run(ctx: &mut Ctx) {
     let cfg = GenCfg::standard();
     let n = ctx.n(500, 30_000);
     let cases = matcher_cases(prop, ctx, &cfg, n);
-    ctx.ev.rule = "each accepted generated ledger P × a generated continuation S (no CAPRETURN/ACCUMULATION) shifted to start 31, 32 or more days after P's last transaction (exactly 31 in a third of the cases): the real calculate() on P ++ S must either reject with an error dated in S or list, for every disposal dated within P, the same legs, costs, proceeds and gain as calculate() on P. Correspondence: P ++ S vs the model. Non-trivial = P has a disposal in its last 30 days and S contains a purchase of the same security; distinct by ledger text.".into();
+    ctx.ev.rule = "each accepted generated ledger P × a generated continuation S (no CAPRETURN/ACCUMULATION; in half the cases with a SPLIT/UNSPLIT of a security that P holds, by preference one whose purchases P's capital events adjusted) shifted to start 31, 32 or more days after P's last transaction (exactly 31 in a third of the cases): the real calculate() on P ++ S must either reject with an error dated in S or list, for every disposal dated within P, the same legs, costs, proceeds and gain as calculate() on P. Correspondence: P ++ S vs the model. Non-trivial = P has a disposal in its last 30 days and S contains a purchase of the same security; distinct by ledger text.".into();
     let ex = run_impl::wide_exemptions();
     let mut r = Rng::new(ctx.seed ^ 0xC12);
     let mut scfg = cfg.clone();
@@ -38,6 +38,16 @@ pub fn run(ctx: &mut Ctx) {
         let gap = match r.below(3) { 0 => 31, 1 => 32, _ => r.range(33, 400) };
         let shift = (last + Duration::days(gap)) - first;
         for t in &mut s { t.date = t.date + shift; }
+        // half the time the continuation also reorganises a security the prefix holds (a SPLIT or UNSPLIT
+        // on one of S's dates), by preference one whose purchases a CAPRETURN/ACCUMULATION of P adjusted:
+        // the whole-timeline cost pre-pass must not let the later reorganisation reach back into those costs
+        if r.chance(1, 2) {
+            let adjusted: Vec<String> = p.iter().filter(|t| matches!(t.kind, Kind::CapReturn | Kind::Accumulation)).map(|t| t.ticker.clone()).collect();
+            let tk = if adjusted.is_empty() { p[r.below(p.len() as u64) as usize].ticker.clone() } else { r.pick(&adjusted).clone() };
+            let at = s[r.below(s.len() as u64) as usize].date;
+            let (kind, ratio) = if r.chance(2, 3) { (Kind::Split, ledger::exact_ratio(&mut r)) } else { (Kind::Unsplit, ledger::exact_unratio(&mut r)) };
+            s.push(GTx::new(at, &tk, kind, ratio, rust_decimal::Decimal::ZERO, rust_decimal::Decimal::ZERO));
+        }
         let mut whole = p.clone();
         whole.extend(s.iter().cloned());
         if r.chance(1, 3) { r.shuffle(&mut whole); }
